@@ -6,13 +6,25 @@ EXPLANATION = ('Loop summary of <GibbsMarkovChain as MarkovChain>::step: the swe
                'each iteration performs exactly one Conditional::sample(&mut target, i, &state) whose `given` argument is the '
                'loop-carried (live) state, stores the result at the same index i, and writes nothing else. Polymorphic body: '
                'holds for every S, D and every Conditional implementation.')
-FLOORS = {'obligations': 6}   # counted on the reference tree; fewer instantiated obligations is reported, never passed silently
+FLOORS = {'obligations': 17}   # counted on the reference tree; fewer instantiated obligations is reported, never passed silently
 TECHNIQUE = 'loop summary (induction variable, carried places) + value-flow normal form'
 A = '<GibbsMarkovChain as MarkovChain>::step'
 OBS = ['C05.range', 'C05.once', 'C05.live', 'C05.store_idx', 'C05.no_other_write', 'C05.ret']
 
 
+def frame_rules(ctx):
+    from .. import frame
+    STEP, NEW, SEED = '<gibbs::GibbsMarkovChain<S, D> as core::MarkovChain<S>>::step', 'gibbs::GibbsMarkovChain::new', 'gibbs::GibbsSampler::set_seed'
+    frame.check_frame(ctx, 'C05', 'gibbs::GibbsMarkovChain', {'target': {STEP, NEW}, 'current_state': {STEP, NEW}, 'seed': {NEW, SEED}, 'rng': {NEW, SEED}},
+                      why="the chain's state and conditional change only through the anchored sweep (and the constructor / seeding API): any other writer is a second, unspecified transition")
+    SNEW, ACC = 'gibbs::GibbsSampler::new', '<gibbs::GibbsSampler<S, D> as core::HasChains<S>>::chains_mut'
+    frame.check_frame(ctx, 'C05', 'gibbs::GibbsSampler', {'target': {SNEW}, 'chains': {SNEW, ACC, SEED}, 'seed': {SNEW, SEED}},
+                      why='the runner hands out its chains (accessor) and re-seeds them; nothing else replaces or edits them')
+    frame.shadowing(ctx, 'C05', ['gibbs::GibbsMarkovChain', 'gibbs::GibbsSampler'])
+
+
 def run(ctx):
+    frame_rules(ctx)
     b = ctx.anchor(A, name='step', trait='core::MarkovChain', self_head='gibbs::GibbsMarkovChain')
     if b is None:
         for o in OBS:
